@@ -17,6 +17,17 @@ def classify(pattern):
 
 
 def match(patterns, relpath):
+    """gitwildmatch subset; a leading '!' re-includes (the last matching pattern decides)"""
+    if any(p.startswith("!") for p in patterns):
+        res = False
+        for pat in patterns:
+            neg = pat.startswith("!")
+            m = match([pat[1:] if neg else pat], relpath)
+            if m is True:
+                res = not neg
+            elif m is None and res is False and not neg:
+                res = None
+        return res
     comps = relpath.split("/")
     dontcare = False
     for pat in patterns:
